@@ -594,6 +594,46 @@ def run_amp(case, ctx):
             ctx.violation('effective-gain-depends-on-channel-count',
                           f'{mname}: {res["n"]} channels -> {sub.effective_gain!r}, same total power on {m_used} channels '
                           f'-> {amp2.effective_gain!r}')
+    # ---- history: the same amplifier object amplifies a second spectrum; the result must be what a fresh object of the same
+    # model and settings gives (nothing computed for the first spectrum may leak into the second)
+    import copy
+    import numpy as np
+    bands = [entry_band(m) if m['type_def'] != 'dual_stage' else DEFAULT_BAND for m in members]
+    second = None
+    if multiband and len([m for m in members if inband(m)]) >= 2:
+        # only the channels of one band this time
+        b = bands[case['split_m'] % len(bands)]
+        second = [c for c in case['comb'] if c['f'] - c['slot'] / 2 >= b[0] and c['f'] + c['slot'] / 2 <= b[1]]
+        ctx.label('history:second-spectrum-in-one-band-only')
+    if not second:
+        # same number of channels at other frequencies (shifted by a quarter of the narrowest slot, kept inside the band)
+        kept = [c for c in case['comb'] if c['f'] in set(expected_out)]
+        shift = min(c['slot'] for c in kept) / 4
+        for sgn in (1, -1):
+            cand = [dict(c, f=c['f'] + sgn * shift) for c in kept]
+            if all(any(lo <= c['f'] - c['slot'] / 2 and c['f'] + c['slot'] / 2 <= hi for lo, hi in bands) for c in cand):
+                second = cand
+                ctx.label('history:second-spectrum-shifted')
+                break
+    subs = list(amp.amplifiers.values()) if multiband else [amp]
+    if second and any(abs(float(a.effective_gain) - float(a.operational.gain_target)) > 1e-9 for a in subs):
+        # a saturated amplifier object keeps the gain it was clamped to (known behaviour: request computations work on copies
+        # of the elements, C16 owns what leaks between propagations); the clause is judged on unsaturated first calls
+        ctx.label('history:not-judged-first-call-saturated')
+        second = None
+    if second:
+        case2 = dict(case, comb=second)
+        fresh = _new_multiband(equipment, lib, case['name'], case['op']) if multiband else \
+            _new_edfa(equipment, case['name'], case['op'][case['name']])
+        out_used = amp(_build_input(case2))
+        out_fresh = fresh(_build_input(case2))
+        for name_ in ('frequency', 'signal', 'ase', 'nli'):
+            x, y = np.asarray(getattr(out_used, name_)), np.asarray(getattr(out_fresh, name_))
+            if x.shape != y.shape or not np.allclose(x, y, rtol=1e-12, atol=0):
+                ctx.violation('amplifier-result-depends-on-an-earlier-call',
+                              f'{case["name"]}: {name_} of the second spectrum: used object {x[:3]} ({x.shape}), fresh object '
+                              f'{y[:3]} ({y.shape})')
+                break
     if multiband:
         ctx.label('model:multi_band')
     ctx.nontrivial(nontrivial)
